@@ -1,7 +1,7 @@
 #!/bin/bash
 # usage: try_patch.sh <patch> <prop>...   -- apply a patch to the scratch worktree /tmp/mut/detect, run quick checks there, undo
 p=$1; shift
-W=/tmp/mut/detect
+W=${TRY_WT:-/tmp/mut/detect2}
 git -C $W checkout -q -- . ; git -C $W apply $p || { echo "APPLY FAILED $p"; exit 2; }
 for prop in "$@"; do
   PYP0F_REPO=$W VERIF_EVIDENCE_DIR=/verif/work/evidence-seeded VERIF_JOBS=8 /verif/check $prop 2>&1 | grep -E '^\[|-> ' | sort | uniq -c | cut -c1-230
